@@ -116,6 +116,39 @@ mod msgq {
             self.queue.push_back(msg);
         }
     }
+
+    #[cfg(feature = "verif")]
+    impl MsgQueue {
+        /// Verification hook: canonical dump of the reader queue incl. contents.
+        pub fn verif_fp(&self, out: &mut Vec<u64>) {
+            let MsgQueue {
+                queue,
+                len_bytes,
+                capacity,
+            } = self;
+            out.push(queue.len() as u64);
+            out.push(*len_bytes as u64);
+            out.push(*capacity as u64);
+            for m in queue.iter() {
+                match m {
+                    UserRxMessage::Payload(p) => {
+                        out.push(1);
+                        crate::verif::push_bytes(out, p);
+                    }
+                    UserRxMessage::Eof => out.push(2),
+                    UserRxMessage::Error(e) => {
+                        out.push(3);
+                        crate::verif::push_bytes(out, e.as_bytes());
+                    }
+                }
+            }
+        }
+
+        /// Verification hook: bytes currently queued for the reader.
+        pub fn verif_len_bytes(&self) -> usize {
+            self.len_bytes
+        }
+    }
 }
 
 use crate::{
@@ -963,5 +996,112 @@ mod tests {
             asm.add_remove(msg_2, 2).unwrap(),
             AssemblerAddRemoveResult::AlreadyPresent
         );
+    }
+}
+
+#[cfg(feature = "verif")]
+impl UtpStreamReadHalf {
+    /// Verification hook: the read half's private state (partially consumed message, EOF flag).
+    pub fn verif_fp(&self, out: &mut Vec<u64>) {
+        let UtpStreamReadHalf {
+            current,
+            is_eof,
+            shared: _,
+        } = self;
+        out.push(*is_eof as u64);
+        match current {
+            None => out.push(0),
+            Some(BeingRead { payload, offset }) => {
+                out.push(1);
+                crate::verif::push_bytes(out, &payload[*offset..]);
+            }
+        }
+    }
+}
+
+#[cfg(feature = "verif")]
+impl OutOfOrderQueue {
+    /// Verification hook: canonical dump of the reassembly queue incl. contents.
+    pub fn verif_fp(&self, out: &mut Vec<u64>) {
+        let OutOfOrderQueue {
+            data,
+            filled_front,
+            len,
+            len_bytes,
+            capacity,
+        } = self;
+        out.push(*filled_front as u64);
+        out.push(*len as u64);
+        out.push(*len_bytes as u64);
+        out.push(*capacity as u64);
+        out.push(data.len() as u64);
+        for (i, m) in data.iter().enumerate() {
+            match m {
+                OoqMessage::Payload(p) if p.is_empty() => {}
+                OoqMessage::Payload(p) => {
+                    out.push(1 + ((i as u64) << 8));
+                    crate::verif::push_bytes(out, p);
+                }
+                OoqMessage::Eof => out.push(2 + ((i as u64) << 8)),
+            }
+        }
+    }
+
+    /// Verification hook: (stored packets, stored bytes, in-order-but-unflushed packets, slots).
+    pub fn verif_stats(&self) -> (usize, usize, usize, usize) {
+        (self.len, self.len_bytes, self.filled_front, self.capacity)
+    }
+
+    /// Verification hook: which slots (relative to the first unflushed one) are occupied.
+    pub fn verif_occupied(&self) -> Vec<bool> {
+        self.data.iter().map(|m| !ooq_slot_is_default(m)).collect()
+    }
+}
+
+#[cfg(feature = "verif")]
+impl UserRx {
+    /// Verification hook: canonical dump of the receive side (shared queue, flags, waker slots, reassembly).
+    pub fn verif_fp(&self, out: &mut Vec<u64>) {
+        let UserRx {
+            shared,
+            ooq,
+            max_incoming_payload,
+            last_remaining_rx_window,
+        } = self;
+        {
+            let g = shared.locked.lock();
+            let UserRxSharedLocked {
+                reader_dropped,
+                vsock_closed,
+                queue,
+                dispatcher_waker,
+                reader_waker,
+            } = &*g;
+            out.push(
+                (*reader_dropped as u64)
+                    | (*vsock_closed as u64) << 1
+                    | (dispatcher_waker.is_some() as u64) << 2
+                    | (reader_waker.is_some() as u64) << 3,
+            );
+            queue.verif_fp(out);
+        }
+        ooq.verif_fp(out);
+        out.push(max_incoming_payload.get() as u64);
+        out.push(*last_remaining_rx_window as u64);
+    }
+
+    /// Verification hook: bytes in the reader queue.
+    pub fn verif_queue_bytes(&self) -> usize {
+        self.shared.locked.lock().queue.verif_len_bytes()
+    }
+
+    /// Verification hook: reassembly statistics, see `OutOfOrderQueue::verif_stats`.
+    pub fn verif_ooq_stats(&self) -> (usize, usize, usize, usize) {
+        self.ooq.verif_stats()
+    }
+
+    /// Verification hook: occupied reassembly slots.
+    pub fn verif_ooq_occupied(&self) -> Vec<bool> {
+        self.ooq.verif_occupied()
     }
 }
